@@ -18,6 +18,50 @@ func init() {
 	register("C15", "", nil, ruleC15GitDir)
 	register("C06", "", nil, ruleC06SubgroupUnion)
 	register("C18", "", nil, ruleC18CountWidth)
+	// sixth round
+	register("C02", "", nil, ruleC02Borrowed)
+	register("C08", "", nil, ruleC08NamesOption)
+	register("C19", "", nil, ruleC19Borrowed)
+}
+
+// ruleC02Borrowed: the maxima range over the reachable objects only if
+// every walked root is fed to the enumeration (C01.roots), and the number
+// of entries / parents counted is the number the object has only if the
+// tree and commit parsers read every entry (C16.grammar, tree and parent
+// clauses).
+func ruleC02Borrowed(c *Ctx) {
+	c.RuleAlias = map[string]string{"C01.roots": "C02.roots", "C16.grammar": "C02.grammar"}
+	c.KeyOnly = func(key string) bool {
+		return !strings.HasPrefix(key, "ParseTag") && !strings.HasPrefix(key, "header:")
+	}
+	defer func() { c.RuleAlias = nil; c.KeyOnly = nil }()
+	ruleC01Roots(c)
+	ruleC16Grammar(c)
+}
+
+// ruleC08NamesOption: --names=none promises that no name is shown; that
+// holds only if an explicit --names is not overridden by sizer.names
+// (C14.families, the sizer.names family).
+func ruleC08NamesOption(c *Ctx) {
+	c.RuleAlias = map[string]string{"C14.families": "C08.names-option"}
+	c.KeyOnly = func(key string) bool { return strings.Contains(key, "sizer.names") }
+	defer func() { c.RuleAlias = nil; c.KeyOnly = nil }()
+	ruleC14Families(c)
+}
+
+// ruleC19Borrowed: a report is produced for every reference name only if
+// the reference listing is split on the single blanks git writes
+// (C16.formats, for-each-ref); footnotes are numbered from 1 without gaps
+// only if a citation is created for rows that are shown (C11.same-value,
+// citation clause).
+func ruleC19Borrowed(c *Ctx) {
+	c.RuleAlias = map[string]string{"C16.formats": "C19.ref-format", "C11.same-value": "C19.footnotes"}
+	c.KeyOnly = func(key string) bool {
+		return key == "for-each-ref" || strings.HasPrefix(key, "Emit:citation")
+	}
+	defer func() { c.RuleAlias = nil; c.KeyOnly = nil }()
+	ruleC16Formats(c)
+	ruleC11SameValue(c)
 }
 
 // ruleC03Borrowed: the depths are those of the real parent/referent edges
@@ -93,7 +137,7 @@ func ruleC06SubgroupUnion(c *Ctx) {
 			var list ssa.Value
 			switch x := in.(type) {
 			case *ssa.FieldAddr:
-				if fieldOfAddr(x).Var.Name() == "subgroups" && isGroupPtr(x.X.Type()) {
+				if vname(fieldOfAddr(x).Var) == "subgroups" && isGroupPtr(x.X.Type()) {
 					consulted = true
 					where = x.Pos()
 					for _, r := range *x.Referrers() {
@@ -241,10 +285,10 @@ func ruleC18CountWidth(c *Ctx) {
 				return
 			case w < 8:
 				n++
-				c.violate(rule, "field:"+fi.Var.Name(), fa.Pos(), fnName(f), fmt.Sprintf("the atomically updated counter is a %s: a phase that processes 2^%d items or more ends with a final line that does not carry the number processed", tn, w*8-1))
+				c.violate(rule, "field:"+vname(fi.Var), fa.Pos(), fnName(f), fmt.Sprintf("the atomically updated counter is a %s: a phase that processes 2^%d items or more ends with a final line that does not carry the number processed", tn, w*8-1))
 			default:
 				n++
-				c.hold(rule, "field:"+fi.Var.Name(), fa.Pos(), "the atomically updated counter is a "+tn)
+				c.hold(rule, "field:"+vname(fi.Var), fa.Pos(), "the atomically updated counter is a "+tn)
 			}
 		})
 	}
